@@ -1,18 +1,18 @@
 CONSTANTS
   None = None
   c1 = c1  c2 = c2  c3 = c3  w1 = w1  w2 = w2  rp = rp  rb = rb
-  NSlab = 4  Cap = 4  Q = 1  NPkt = 3
+  NSlab = 3  Cap = 3  Q = 1  NPkt = 3
   Clients = {c1, c2}
-  Kinds <- KBatch
+  Kinds <- KHdr
   Workers = {w1}
   PReaders <- NoReaders
   BReaders = {rb}
   B = 2  TXMax = 2
   Inline = TRUE  BatchTX = TRUE  Drops = FALSE
-  ScrubTxLen = TRUE  ResetRawSA = TRUE  BothOnHandoff = TRUE
-  ClearHdr = TRUE  TruncRelease = TRUE
+  ScrubTxLen = TRUE  ResetRawSA = TRUE  BothOnHandoff = FALSE
+  ClearHdr = FALSE  TruncRelease = TRUE
   ResetSlot = TRUE  Opts <- ONone
 SPECIFICATION Spec
 SYMMETRY SymClients
-INVARIANTS ReplyIsOwn SilentStaysSilent AtMostOneSend ReleaseOnce SingleOwner
+INVARIANTS TypeOK ReleaseOnce ReplyIsOwn ReplyOptIsOwn AtMostOneSend NoHeldSlabs ReplyHeaderIsOwn
 CHECK_DEADLOCK FALSE
